@@ -74,6 +74,20 @@ def gen_case(rng, max_n=8, p_fail=0.08, p_flag=0.2, mode_mix=True):
     return case
 
 
+def refresh_derived(case, rng):
+    """after a generated case was reshaped by hand (other edges / attributes / max_concurrency): drop the parts that
+    were derived from the old shape and derive the reconfiguration history again"""
+    had = "reconf" in case
+    for k in ("reconf", "debug", "run_debug"):
+        case.pop(k, None)
+    n = case["n"]
+    for k, fl in list(case["flags"].items()):
+        if fl[0] == "node" and len(fl) == 3 and not (isinstance(case["rets"][fl[1]], list) and str(fl[1]) not in case["flags"]):
+            del case["flags"][k]
+    if had:
+        case["reconf"] = gen_reconf(random.Random(rng.getrandbits(32)), case)
+
+
 def gen_reconf(rng, case):
     """the DAG is built with other priorities / sequential flags / max_concurrency and brought to the case's
     attributes by two config_from_dict steps (the second one holds priority-only entries, also for nodes whose
